@@ -180,7 +180,7 @@ type proc struct {
 
 func (p *Pool) start() (*proc, error) {
 	cmd := exec.Command(p.Exe, p.Args...)
-	cmd.Env = os.Environ()
+	cmd.Env = append(os.Environ(), "GOMAXPROCS=2")
 	in, err := cmd.StdinPipe()
 	if err != nil {
 		return nil, err
